@@ -295,13 +295,17 @@ func psEnterTypeDef(ps ParseState) ParseState {
 	nald := dict.New[string, string]()
 	ntdctx := TypeDefCtx{tva: old.tva, insideTD: true, defined: ntd, allocedDict: nald}
 	tvaReset(ntdctx.tva)
-	return psWithTDCtx(ps, ntdctx)
+	nps := psWithTDCtx(ps, ntdctx)
+	verifTracePS("enterTD", nps)
+	return nps
 }
 
 func psLeaveTypeDef(ps ParseState) ParseState {
 	old := ps.tdctx
 	ntdctx := TypeDefCtx{tva: old.tva, insideTD: false, defined: old.defined, allocedDict: old.allocedDict}
-	return psWithTDCtx(ps, ntdctx)
+	nps := psWithTDCtx(ps, ntdctx)
+	verifTracePS("leaveTD", nps)
+	return nps
 }
 
 func psInsideTypeDef(ps ParseState) bool {
@@ -424,7 +428,9 @@ func psStringValNxL(ps ParseState) frt.Tuple2[ParseState, string] {
 
 func psResetTmpCtx(ps ParseState) ParseState {
 	resetUniqueTmpCounter()
-	return frt.Pipe(newTypeVarCtx(), (func(_r0 TypeVarCtx) ParseState { return psWithTVCtx(ps, _r0) }))
+	nps := frt.Pipe(newTypeVarCtx(), (func(_r0 TypeVarCtx) ParseState { return psWithTVCtx(ps, _r0) }))
+	verifTracePS("reset", nps)
+	return nps
 }
 
 func psIsNeighborLT(ps ParseState) bool {
